@@ -102,6 +102,10 @@ func laplacianConcurrent(nWorkers, evals int, f func(x []float64) float64, x []f
 
 	var originWG sync.WaitGroup
 	hasOrigin := usesOrigin(stencil)
+	if originKnown {
+		// The caller provided the value at the origin.
+		hasOrigin = false
+	}
 	if hasOrigin {
 		originWG.Add(1)
 		// Launch worker to compute the origin.
